@@ -331,10 +331,19 @@ Proof.
   vm_compute in H. discriminate.
 Qed.
 
-Lemma operator_idem_refuted : exists c consaddr (s s' : mstore), sorted s /\
-  op_init c consaddr (op_export s) = Ok s' /\ op_export s' <> op_export s.
+(* the importer as found: the commission time of every operator is reset, so the second export differs *)
+Lemma operator_commission_unrepaired_refuted : exists c consaddr (s s' : mstore), sorted s /\
+  op_init_unrepaired c consaddr (op_export s) = Ok s' /\ op_export s' <> op_export s /\
+  sget s' ("01" ++ ex_opaddr)%string = Some (VInfo "#info" (cx_time c)).
 Proof.
   exists ex_ctx, ex_consaddr, ex_operator. eexists.
-  split; [apply sortedb_sound; vm_compute; reflexivity|]. split; [vm_compute; reflexivity|].
-  intro H. apply (f_equal (fun g => gsec g "01")) in H. vm_compute in H. discriminate.
+  split; [apply sortedb_sound; vm_compute; reflexivity|]. split; [vm_compute; reflexivity|]. split.
+  - intro H. apply (f_equal (fun g => gsec g "01")) in H. vm_compute in H. discriminate.
+  - vm_compute. reflexivity.
 Qed.
+
+(* ... and the previous key's lookup is not rebuilt although the key is recorded under 08 *)
+Lemma operator_prevkey_unrepaired_refuted : exists s', op_init_unrepaired ex_ctx ex_consaddr (op_export ex_operator_wf) = Ok s' /\
+  sget s' ("0a" ++ ex_chain ++ "9a010f35bd7270626f934fb382364232a4f0c5e1")%string = None /\
+  op_init ex_ctx ex_consaddr (op_export ex_operator_wf) = Ok ex_operator_wf.
+Proof. eexists. split; [vm_compute; reflexivity|]. split; vm_compute; reflexivity. Qed.
